@@ -81,6 +81,7 @@ type propCheck struct {
 	ExtraInputs []string // "obligation\x00input" pairs found by bounded components
 	cmdReplay *replayResult
 	tgReplay  *replayResult
+	cotReplay *replayResult
 	replayCache map[string]replayResult
 	replays   map[*Obligation]replayResult
 	models    map[*Obligation]string
@@ -450,6 +451,16 @@ func (pc *propCheck) report(t0 time.Time) int {
 						_, out, _ := runOne(context.Background(), solvers[0], mf, 5)
 						pc.models[o] = out
 					}
+				}
+			}
+			if pc.ID == "C06" && !rr.Confirmed {
+				// the property itself, observed on the real binary: alone vs. together
+				if pc.cotReplay == nil {
+					x := pc.replayCoTranslation()
+					pc.cotReplay = &x
+				}
+				if pc.cotReplay.Confirmed || !rr.Tried {
+					rr = *pc.cotReplay
 				}
 			}
 			pc.replays[o] = rr
